@@ -9,7 +9,9 @@
 (*          underlying http.ResponseWriter (hook / hdr / body / flush      *)
 (*          entries) plus the observers Status/Size/Written.               *)
 (*                                                                         *)
-(* The underlying writer may accept fewer bytes than offered (acc <= n).   *)
+(* The underlying writer may accept fewer bytes than offered (acc <= n),   *)
+(* with or without reporting an error; it may lack Flush; it may itself be *)
+(* a flamego ResponseWriter; status codes include the informational ones.  *)
 (* Hijack/Push are pure delegations and are modelled as ops that append a  *)
 (* "hijack"/"push" entry without touching status/size.                     *)
 (***************************************************************************)
